@@ -217,6 +217,10 @@ class SocketSeam:
             raise HarnessError('a socket was opened outside a simulated worker process')
         return sock
 
+    def __getattr__(self, name):
+        import socket as _socket
+        return getattr(_socket, name)       # constants etc.
+
 
 class World:
 
@@ -322,14 +326,24 @@ class World:
         wp.pickle = self.wp_pickle
         world = self
 
-        class OSProxy:
+        import os as _os
+
+        class _OSProxy:
+            """``os`` as seen by pool.py: signals go to simulated processes, the environment is
+            empty, everything else is the real module."""
             environ = {}
 
             @staticmethod
             def kill(pid, sig):
                 world.os_kill(pid)
-        import os as _os
-        OSProxy.path = _os.path
+
+            @staticmethod
+            def getpid():
+                return 4141
+
+            def __getattr__(self, name):
+                return getattr(_os, name)
+        OSProxy = _OSProxy()
         P.os = OSProxy
         self._sock_for_worker = None
         if not hasattr(amsg, '_verif_real_WorkerConnection'):
